@@ -46,7 +46,10 @@ Definition rank_table : list (lock * nat) :=
    ("Client.lock", 5);                       (* the SQLite client's RWMutex: held for a whole transaction *)
    ("user.statesLock", 6); ("MessageHashesMap.lock", 6); ("WriteControlledStore.lock", 6); ("syncRef.lock", 6);
    ("Cond.L", 7);                            (* QueuedChannel: the innermost lock *)
-   ("ExistsStateUpdate.lock", 8); ("Abortable.abortLock", 8); ("Semaphore.rw", 8)].
+   ("ExistsStateUpdate.lock", 8); ("Abortable.abortLock", 8); ("Semaphore.rw", 8);
+   (* introduced by notes/C19-fix-1.diff (guards of a state's snapshot against State.HasMessage from other goroutines):
+      innermost, nothing is requested while they are held *)
+   ("State.snapLock", 8); ("snapMsgList.idxLock", 8)].
 
 Fixpoint lookup (l : lock) (t : list (lock * nat)) : option nat :=
   match t with [] => None | (k, v) :: r => if String.eqb l k then Some v else lookup l r end.
